@@ -53,4 +53,53 @@ mod verif_kani_std_specs {
             i += 1;
         }
     }
+    /// the same three contracts at the largest sizes the crate ever uses them with (block-hash arrays of 64 bytes, the
+    /// position array of 64 u64): every call site of the crate operates on (sub-slices of) arrays of at most 64 elements
+    #[kani::proof]
+    #[kani::unwind(66)]
+    fn std_fill_spec_u8_64() {
+        let mut a: [u8; 64] = kani::any();
+        let old = a;
+        let lo: usize = kani::any();
+        let hi: usize = kani::any();
+        let v: u8 = kani::any();
+        kani::assume(lo <= hi && hi <= 64);
+        a[lo..hi].fill(v);
+        let mut i = 0;
+        while i < 64 {
+            if lo <= i && i < hi { assert!(a[i] == v); } else { assert!(a[i] == old[i]); }
+            i += 1;
+        }
+    }
+
+    #[kani::proof]
+    #[kani::unwind(66)]
+    fn std_fill_spec_u64_64() {
+        let mut a: [u64; 64] = kani::any();
+        let v: u64 = kani::any();
+        a.fill(v);
+        let mut i = 0;
+        while i < 64 {
+            assert!(a[i] == v);
+            i += 1;
+        }
+    }
+
+    #[kani::proof]
+    #[kani::unwind(66)]
+    fn std_clone_from_slice_spec_64() {
+        let mut a: [u8; 64] = kani::any();
+        let old = a;
+        let b: [u8; 64] = kani::any();
+        let n: usize = kani::any();
+        let off: usize = kani::any();
+        let src: usize = kani::any();
+        kani::assume(n <= 64 && off <= 64 - n && src <= 64 - n);
+        a[off..off + n].clone_from_slice(&b[src..src + n]);
+        let mut i = 0;
+        while i < 64 {
+            if off <= i && i < off + n { assert!(a[i] == b[i - off + src]); } else { assert!(a[i] == old[i]); }
+            i += 1;
+        }
+    }
 }
